@@ -33,6 +33,21 @@ CLAIMED = {
   text="Acknowledgement ordering on every path: run() hands out the executor's log only after receiving on its done channel; every hand-off happens inside an executor run by run() (or is passed up with its channel); done is closed only in the batcher callback or on the dry-run edge; batch callbacks fire only from batcherJob.Terminated, which Runner.Run invokes only on jobs received from the channel the worker feeds on the nil-error edge of InsertLogs; a failing InsertLogs ends in panic on all paths; InsertLogs runs inside one RunInTx and drops no error; no executor returns an error after a hand-off.",
   design_ref="DESIGN.md §3 C06",
   technique="path state machines over SSA (dominance of ack by wait, error-edge analysis), who-may-call, error-discipline check (static analysis)"),
+ "C07": dict(
+  category="other",
+  text="On every path of executionContext.run (all interleavings of duplicates): with a non-empty key, the key is reserved before the store lookup and before the executor, and released only by a defer of run (after the persistence wait); every log chained in package command — real and preview path, every kind of write since all funnel through one function — is built by a builder that stamps Parameters.IdempotencyKey; the lookup is ledger-scoped and keyed by the column. SQL uniqueness does not exist and is not decided; multi-process deployments are out of scope.",
+  design_ref="DESIGN.md §3 C07",
+  technique="path state machine over SSA (reservation span) + interprocedural builder provenance (static analysis)"),
+ "C10": dict(
+  category="other",
+  text="In-flight guard spans store read→write on every path; the write is only reached on the not-reverted edge of the transaction read for the same id; overdraft flag is `force` at the revert site and constant false elsewhere, its text emitted only under the flag; the revert log is built from (id of the read transaction, new transaction) and the SQL trigger marks exactly that id scoped by ledger; the script is Reverse() of the read transaction; revert runs under the account lock (R02a). Reverse arithmetic / balance restoration not decided.",
+  design_ref="DESIGN.md §3 C10",
+  technique="path state machine over SSA + edge facts + SSA provenance + lexical SQL scan (static analysis)"),
+ "C11": dict(
+  category="other",
+  text="For every path of every function that reserves a transaction reference: reservation precedes the store lookup, both precede the hand-off, no hand-off on the lookup-found path, and the reservation is released only after the persistence wait of the handed-off log; the lookup is ledger-scoped and keyed by reference. This reservation is the whole mechanism (no unique index), so its span is the necessary and sufficient structural condition within one process.",
+  design_ref="DESIGN.md §3 C11",
+  technique="path state machine over SSA with infeasible-edge pruning (static analysis)"),
 }
 
 NOT_APPLICABLE = {
